@@ -925,6 +925,20 @@ def check_plate_transfer(src, dst, quantity, result, exc, op):
                   {'role': mism[0], 'k': mism[1], 'diff': mism[2], 'got': F.snap_contents(mism[3]),
                    'expected': F.snap_contents(mism[4]), 'quantity': quantity, 'form': form,
                    'src_idx': src_idx, 'dst_idx': dst_idx})
+    # ---- C19: between two plates the line a destination well gains names the source well *and the plate it is on* (round 17,
+    # seeded s-C19-i: the many-to-one form named the destination plate)
+    if sk == 'S' and dk == 'S' and not same_plate and exc is None and splate.name != dplate.name:
+        M.count('INSTR.plate_transfer_source_named')
+        for ks, kd in pairs:
+            before_lines = (dwells[kd][1].instructions or '').splitlines()
+            after_lines = (getw(r_dst, dk, dst_idx, kd).instructions or '').splitlines()
+            new_lines = after_lines[len(before_lines):] if after_lines[:len(before_lines)] == before_lines else after_lines
+            want = f'{splate.name} {swells[ks][1].name}'
+            if not any(want in ln for ln in new_lines):
+                M.violate(['C19'], 'INSTR', f'C19:plate_transfer_line_does_not_name_the_source_plate_and_well:{form}',
+                          {'form': form, 'expected_to_read': want, 'new_lines': new_lines[-4:], 'source_plate': splate.name, 'destination_plate': dplate.name})
+                break
+        M.bucket(f'C19/plate_transfer_source_named/{form}')
     # ---- C02 broadcast clause: container side changes by n*q in the request's unit
     if sk == 'C' or dk == 'C':
         M.count('ALIQ.broadcast')
